@@ -2,6 +2,7 @@
 (* All mutation shapes of a small scope: both encoders denote the spec's    *)
 (* cell set; vectors are exported for the conformance driver.               *)
 EXTENDS KeyValue, TLC, Json, SequencesExt
+F0 == <<>>             \* "" (with an empty row, qualifier and value: the smallest cell there is, 24 bytes)
 F1 == <<102>>          \* "f"
 F2 == <<102, 50>>      \* "f2"
 Q0 == <<>>
@@ -18,6 +19,7 @@ Inners == {Inner(TRUE, [q \in {} |-> V0])}
           \cup {Inner(FALSE, [q \in {Q0, Q1} |-> IF q = Q1 THEN V2 ELSE V0])}
 ValueMaps == {[f \in {} |-> Inner(TRUE, [q \in {} |-> V0])]}
              \cup {[f \in {F1} |-> i] : i \in Inners}
+             \cup {[f \in {F0} |-> i] : i \in Inners}
              \cup {[f \in {F1, F2} |-> IF f = F1 THEN i ELSE j] : i \in Inners, j \in Inners}
 Kinds == {"put", "delete", "append", "increment"}
 Tss == {[latest |-> TRUE, bytes |-> Latest], [latest |-> FALSE, bytes |-> <<0, 0, 0, 0, 0, 0, 0, 5>>],
